@@ -291,6 +291,15 @@ def storeRow : List ColDesc → Row → Row
   | c :: cs, v :: vs => (if c.notNull && v == Val.null then defaultOf c.ty else v) :: storeRow cs vs
   | _, vs => vs
 
+/-- `InsertExecutor`'s constraint check (repository commit 652f6b6): no NULL for a NOT NULL / PRIMARY
+KEY column -/
+def noNullIn : List ColDesc → Row → Bool
+  | c :: cs, v :: vs => !(c.notNull && v == Val.null) && noNullIn cs vs
+  | _, _ => true
+
+/-- the whole statement is rejected when one row violates it -/
+def rowsOk (d : TableDef) (rows : List Row) : Bool := rows.all (noNullIn d.cols)
+
 /-- the data chunk a mem-rowset flushes: rows in arrival order, or key order for keyed tables -/
 def memFlush (d : TableDef) (rows : List Row) : List Row :=
   let rows := rows.map (storeRow d.cols)
@@ -351,6 +360,7 @@ def Store.insert (s : Store) (n : String) (parts : List (List Row)) : Store × O
   | some tid => match lookup tid s.tables with
     | none => (s, .err "no-table")
     | some d =>
+      if !rowsOk d parts.flatten then (s, .err "not-null") else
       let nd := flushDirs d tid parts s.nextRs
       ({ (s.commit (nd.map fun x => Rec.addRowSet tid x.1.2)) with
           nextRs := s.nextRs + parts.length, dirs := s.dirs ++ nd
@@ -490,7 +500,9 @@ def Store.reopen (s : Store) : Opened :=
               nextRs := b.nextRs, nextDv := b.nextDv
               manifest := txn (b.rsOpen.map (fun k => Rec.addRowSet k.1 k.2)
                           ++ b.dvOpen.map (fun k => Rec.addDV k.1 k.2.1 k.2.2) ++ b.tableOps)
-              dirs := dirs, dvFiles := s.dvFiles }
+              dirs := dirs
+              -- boot-time vacuum of `dv/`: files of DVs that the replayed log does not name are removed
+              dvFiles := s.dvFiles.filter fun x => b.dvOpen.contains x.1 }
 
 /-- a fresh database directory: `bootstrap` of nothing -/
 def Store.init : Store := { manifest := txn [] }
@@ -568,7 +580,9 @@ def SpecSt.step (sp : SpecSt) : Op → SpecSt × Out
       else (sp, .err "no-table")
   | .insert n parts => match sp.tables.get n with
       | none => (sp, .err "no-table")
-      | some (d, rows) => ({ sp with tables := sp.tables.set n (d, rows ++ parts.flatten) }, .ok parts.flatten.length)
+      | some (d, rows) =>
+        if !rowsOk d parts.flatten then (sp, .err "not-null")
+        else ({ sp with tables := sp.tables.set n (d, rows ++ parts.flatten) }, .ok parts.flatten.length)
   | .delete n p => match sp.tables.get n with
       | none => (sp, .err "no-table")
       | some (d, rows) =>
@@ -642,7 +656,9 @@ def MemStore.step (s : MemStore) : Op → MemStore × Out
     | none => (s, .err "no-table")
     | some tid => match lookup tid s.tables with
       | none => (s, .err "no-table")
-      | some t => (s.setTable tid (t.insert parts), .ok parts.flatten.length)
+      | some t =>
+        if !rowsOk t.defn parts.flatten then (s, .err "not-null")
+        else (s.setTable tid (t.insert parts), .ok parts.flatten.length)
   | .delete n p => match s.tableId? n with
     | none => (s, .err "no-table")
     | some tid => match lookup tid s.tables with
